@@ -14,7 +14,7 @@ use crate::oracle::*;
 pub const META: PropMeta = PropMeta {
     id: "C31",
     quick_runs: 60_000,
-    thorough_runs: 100_000_000,
+    thorough_runs: 40_000_000,
     rule: "each run picks a corpus slice program (use::batch on a total / unordered / keyed-total / keyed-unordered stream; use::batch + use::snapshot(count) + use::state; use::batch + use::snapshot(keyed count); two use::batch in one slice), a seeded workload (<=6 uniquely numbered items per input over <=3 keys, send steps interleaved with awaits) and 4096 decision bytes for CompiledSim::fuzz_repro; every slice emits one record (batch, snapshot, state before/after). One extra scenario runs CompiledSim::exhaustive on the two smallest programs and applies the same oracle to every enumerated instance. Distinct = distinct hash of (program, decision log); non-trivial = at least one item flowed AND more than one slice ran or an await was served mid-workload.",
     time_unit: "slices (ticks) executed",
     real: &[
